@@ -55,7 +55,8 @@ PARTIAL = {
                                "degenerated_tetrahedron (NO_CONTACT), origin_on_AB_segment, origin_lies_on_tetrahedrons_face, "
                                "|dir|^2 < EPSILON and the iteration-cap exit (all answer by fiat); they are compared step-wise and "
                                "searched by the oracle only",
-    "nesterov": "gjk_nesterov_accelerated(_primitives)_intersection are not modelled; oracle only (finding F-nesterov-inflation-generic-support)",
+    "nesterov": "gjk_nesterov_accelerated(_primitives)_intersection are not modelled; oracle only (finding "
+                "F-nesterov-project-tetra-outside-simplex; the inflation defect found by this oracle was repaired upstream, 78b7577)",
 }
 ASSUMPTIONS = [
     "support mappings are abstract: IsSupport A d (sA d) for every d (property C03 supplies it for the concrete colliders)",
@@ -82,7 +83,8 @@ MANIFEST = dict(
           "False / True from all five tests."),
     note=("trusted: Lean kernel + Mathlib, axioms propext/Classical.choice/Quot.sound; exact-real semantics; C18 solver spec and C03 "
           "support contract as hypotheses; Nesterov loops oracle-only; partial exits named in PARTIAL; known findings: "
-          "F-nesterov-inflation-generic-support, F-mpr-origin-on-portal-side-plane"),
+          "F-nesterov-project-tetra-outside-simplex, F-mpr-origin-on-portal-side-plane (F-nesterov-inflation-generic-support was "
+          "repaired upstream by 78b7577; its witness is a regression input)"),
     technique="Lean 4 exit-branch proofs on hand-written model + step-wise trace correspondence + constructed-truth oracle",
     design="§7 C02")
 
@@ -903,7 +905,7 @@ def case_jolt_step(inp, out, origin):
         if (m_state, m_n) != (state, n_out):
             return False, "decision differs: model (state %d, n %d, br %d) vs implementation (state %d, n %d)" % (
                 m_state, m_n, br, state, n_out), br
-        if not close(m_prev, prev_out, 0.0, 1e-9):
+        if not close(m_prev, prev_out, 1e-9 * S * S * (0.0 if prev_out > 1e300 else 1.0), 1e-9):
             return False, "prev_v_len_sq differs: %r vs %r" % (m_prev, prev_out), br
         if not close(m_Y[:n_out], Y_out[:n_out], 1e-9 * S):
             return False, "Y differs", br
@@ -977,7 +979,8 @@ def case_libccd_refine(inp, out, origin):
     def redo(eps, rng):
         vp = np.array(vz) * (1 + eps * np.array([[rng.uniform(-1, 1) for _ in range(3)] for _ in range(4)]))
         o = call_libccd_refine((vp, n))
-        return (o[0], o[2])
+        rows = tuple(int(np.argmin(np.abs(vp[:n] - o[3][i]).sum(axis=1))) for i in range(min(o[2], 4))) if not isinstance(o[0], str) else ()
+        return (o[0], o[2], rows)
     return StepCase("C02.libccd.refine", tokens, out, compare, origin, redo)
 
 
@@ -1259,6 +1262,7 @@ def run_cases_through_driver(ctx, cases, tag, stream):
     out = drv.run()
     bad = 0
     rng = ctx.rng
+    pending = []
     for c, cid in zip(cases, ids):
         s = out.get(cid, "bad missing")
         if s.startswith("bad"):
@@ -1285,9 +1289,42 @@ def run_cases_through_driver(ctx, cases, tag, stream):
         if tie:
             ctx.extra["ties"] = ctx.extra.get("ties", 0) + 1
             continue
-        bad += 1
-        ctx.broke("correspondence", c.fn, msg, _origin_json(c))
+        pending.append((c, msg, s))
+    # second tie test: is the MODEL's own decision (Float) unstable under a 1e-12 relative perturbation of the inputs?
+    # (exactly degenerate inputs such as coplanar simplices, where the sign of a rounding residue decides)
+    if pending:
+        drv2 = core.Driver("c02-" + tag + "-tie")
+        pids = []
+        for c, msg, s in pending:
+            ids2 = []
+            for _ in range(8):
+                toks = [f2h(h2f(t) * (1 + 1e-12 * rng.uniform(-1, 1))) if (len(t) == 16 and _is_hex(t)) else t for t in c.tokens]
+                ids2.append(drv2.add(c.fn, "F", toks))
+            pids.append(ids2)
+        out2 = drv2.run()
+        for (c, msg, s), ids2 in zip(pending, pids):
+            k = DECISION_TOKENS.get(c.fn, 1)
+            base = tuple(s.split()[:1 + k])
+            if any(tuple(out2.get(i, "").split()[:1 + k]) != base for i in ids2):
+                ctx.extra["ties"] = ctx.extra.get("ties", 0) + 1
+                ctx.extra["ties_model_side"] = ctx.extra.get("ties_model_side", 0) + 1
+                continue
+            bad += 1
+            ctx.broke("correspondence", c.fn, msg, _origin_json(c))
     return bad
+
+
+DECISION_TOKENS = {"C02.jolt.step": 3, "C02.libccd.refine": 3, "C02.mpr.iterate": 2, "C02.mpr.searchdir": 1,
+                   "C02.mpr.expand": 1, "C02.mpr.encaps": 1, "C02.mpr.reach": 1, "C02.mpr.portaldir": 1,
+                   "C02.jolt.run": 3, "C02.libccd.run": 3, "C02.mpr.run": 3}
+
+
+def _is_hex(t):
+    try:
+        int(t, 16)
+        return True
+    except ValueError:
+        return False
 
 
 def _origin_json(c):
@@ -1444,25 +1481,21 @@ def gen_band_scene(rng, stream):
 
 
 # ------------------------------------------------------------------------------------------------ findings
-F_INFLATION = "F-nesterov-inflation-generic-support"
-
-
-def inflation_of(s):
-    return float(s["r"]) if s["type"] in ("sphere", "capsule") else 0.0
+# repaired in /repo by 78b7577 ("fix: Nesterov GJK subtracted sphere/capsule radii although the generic support functions
+# already include them"); formerly known finding F-nesterov-inflation-generic-support.  The witness stays as a regression input.
+REGRESSION_SCENES = [
+    ("nesterov", {"a": {"type": "sphere", "c": [1.0, -1.0, 0.0], "r": 1.0}, "b": {"type": "cone", "R": [[1.0, 0.0, 0.0], [0.0, 1.0, 0.0], [0.0, 0.0, 1.0]], "t": [1.0, -1.0, -3.5], "r": 1.0, "h": 2.0}, "kind": "sep", "n": [0.0, 0.0, -1.0], "f": 250.0, "stream": "L", "placement": "aligned", "L": 2.5, "delta": 0.0025, "cert": 0.5}),
+]
 
 
 def classify(test, sc, res):
-    """finding id for a failing (test, scene) or None.  Narrow: the function, the collider-type class, the scene kind
-    and the numerical mechanism (certified gap below the subtracted inflation) must all match."""
-    if test == "nesterov" and sc["kind"] == "sep" and res is True:
-        ta, tb = sc["a"]["type"], sc["b"]["type"]
-        infl = inflation_of(sc["a"]) + inflation_of(sc["b"])
-        generic_path = not (ta in PRIM_TYPES and tb in PRIM_TYPES)
-        # the loop answers `distance - inflation < tolerance` with distance measured between the FULL shapes
-        if infl > 0 and generic_path and sc["cert"] < infl + 1e-6 + 1e-9 * sc["L"]:
-            return F_INFLATION
+    """finding id for a failing (test, scene) or None.  Narrow: the function, the scene kind and the numerical MECHANISM
+    (checked by re-running the implementation with a probe) must all match."""
     if test == "mpr":
         return classify_mpr(sc, res)
+    if test in ("nesterov", "nesterov_prim") and sc["kind"] == "sep" and res is True:
+        if nesterov_tetra_defect(test, sc):
+            return F_NESTEROV_TETRA
     return None
 
 
@@ -1496,6 +1529,55 @@ def classify_mpr(sc, res):
     if min(dets) <= 1e-12 * S ** 3:
         return F_MPR_SIDE
     return None
+
+
+F_NESTEROV_TETRA = "F-nesterov-project-tetra-outside-simplex"
+
+
+def min_norm_hull(P):
+    """minimum-norm point of the hull of <= 4 points by enumeration of faces (independent of the library)"""
+    P = np.asarray(P, dtype=float)
+    best = None
+    for r in range(1, len(P) + 1):
+        for idx in itertools.combinations(range(len(P)), r):
+            Q = P[list(idx)]
+            if r == 1:
+                x = Q[0]
+            else:
+                M = (Q[1:] - Q[0]).T
+                t = np.linalg.lstsq(M, -Q[0], rcond=None)[0]
+                lam = np.concatenate(([1.0 - t.sum()], t))
+                if np.any(lam < -1e-12):
+                    continue
+                x = lam @ Q
+            if best is None or np.linalg.norm(x) < np.linalg.norm(best):
+                best = x
+    return best
+
+
+def nesterov_tetra_defect(test, sc):
+    """mechanism check for F-nesterov-project-tetra-outside-simplex: during the run some call of
+    `project_tetra_to_origin` returns a `ray` that is SHORTER than the minimum-norm point of the tetrahedron it was given
+    (i.e. a point outside the simplex: the region logic extrapolates along an edge)"""
+    from distance3d.gjk import _gjk_nesterov_accelerated as N1, _gjk_nesterov_accelerated_primitives as N2
+    mod = N1 if test == "nesterov" else N2
+    orig = mod.project_tetra_to_origin
+    flagged = []
+
+    def f(simplex):
+        inp = np.array(simplex[:4])
+        out = orig(simplex)
+        if not out[2]:
+            tc = min_norm_hull(inp)
+            if np.linalg.norm(out[0]) < np.linalg.norm(tc) - 1e-9 * _scale(inp):
+                flagged.append((inp, np.array(out[0])))
+        return out
+    mod.project_tetra_to_origin = f
+    try:
+        run_test(test, sc)
+    finally:
+        mod.project_tetra_to_origin = orig
+    return flagged
 
 
 def still_fails(test, sc):
@@ -1751,6 +1833,15 @@ def search(ctx):
     import time
     t0 = time.time()
     boost = 3 if ctx.extra.get("search_boost") else 1
+    # (0a) regression inputs (witnesses of defects repaired in /repo): must pass
+    for t, sc in REGRESSION_SCENES:
+        ok, cert, delta = recheck_truth(sc)
+        res = run_test(t, sc)
+        ctx.count("regression", key=json.dumps(sc, sort_keys=True))
+        ctx.branch("oracle:regression", "ok" if res == expected(sc) else "WRONG")
+        if ok and res != expected(sc):
+            ctx.fail(FUNCTION_NAMES[t], {"test": t, "scene": sc}, res, expected(sc),
+                     "regression input of a repaired defect (certificate %.6g >= delta %.6g)" % (cert, delta))
     # (0) known-finding witnesses are replayed first
     for k in known_witnesses():
         for w in [k.get("witness", {})] + list(k.get("more_witnesses", [])):
